@@ -40,6 +40,9 @@ def seed_list(tier):
                                     'kinds': ['A', 'B', 'Zx']}, 'format': 'NETCDF3_CLASSIC'},
         {'kind': 'ioapi', 'rec': {'nt': 2, 'nl': 1, 'nr': 2, 'nc': 2, 'nv': 2, 'start': 2,
                                   'tstep': 10000, 'kind': 'disk', 'masked': False}},
+        # masked-type variable without a masked cell that holds NaN and inf; time-independent flags (-635)
+        {'kind': 'special', 'which': 'nonfinite'},
+        {'kind': 'special', 'which': 'tflag635'},
         {'kind': 'sample', 'format': 'uamiv', 'path': 'camxfiles/uamiv/test.uamiv'},
         {'kind': 'sample', 'format': 'ffi1001', 'path': 'icarttfiles/test.ffi1001'},
     ]
@@ -94,6 +97,32 @@ class Prop(bfs.BfsProp):
                 os.unlink(path)
             lib.to_real(rfile.ufile(s['file'])).save(path, format=s['format'], verbose=0).close()
             return P.pncopen(path, format='netcdf')
+        if s['kind'] == 'special':
+            f = P.PseudoNetCDFFile()
+            if s['which'] == 'nonfinite':
+                f.createDimension('t', 2)
+                f.createDimension('x', 3)
+                v = f.createVariable('NF', 'f', ('t', 'x'), fill_value=-999.)
+                v.units = 'ppb'
+                v[...] = np.ma.MaskedArray(np.array([[1., np.nan, 3.], [np.inf, 5., -np.inf]], dtype='f'),
+                                           mask=np.zeros((2, 3), bool))
+                w = f.createVariable('PL', 'd', ('x',))
+                w.units = 'm'
+                w[...] = [1., np.nan, 3.]
+                f.title = 'nonfinite'
+            else:
+                f.createDimension('TSTEP', 2)
+                f.createDimension('VAR', 1)
+                f.createDimension('DATE-TIME', 2)
+                f.createDimension('x', 3)
+                tf = f.createVariable('TFLAG', 'i', ('TSTEP', 'VAR', 'DATE-TIME'))
+                tf.units = '<YYYYDDD,HHMMSS>'
+                tf[:, 0, 0] = -635
+                tf[:, 0, 1] = 0
+                v = f.createVariable('LU', 'f', ('TSTEP', 'x'))
+                v.units = '1'
+                v[...] = [[1, 2, 3], [4, 5, 6]]
+            return f
         if s['kind'] == 'sample':
             import PseudoNetCDF.testcase as tc
             path = os.path.join(os.path.dirname(tc.__file__), s['path'])
